@@ -89,7 +89,15 @@ case " $* " in
             echo "$n" > "$VERIF_KILL_CNT"
             if [ "$n" -eq "$VERIF_KILL_AT" ]; then
                 echo "killed after write $n: $*" >> "$VERIF_PROBE_LOG"
-                kill -9 -- "-$(cat "$VERIF_ORCH_PGID")" 2>/dev/null
+                if [ "${VERIF_KILL_SIG:-KILL}" = "TERM" ]; then
+                    # an orderly termination: the shell handles the signal once this child has returned,
+                    # its exit handler runs; whatever is left is killed a moment later from outside the session
+                    pg="$(cat "$VERIF_ORCH_PGID")"
+                    setsid sh -c "sleep 0.8; kill -9 -- -$pg" >/dev/null 2>&1 </dev/null &
+                    kill -TERM "$pg" 2>/dev/null
+                else
+                    kill -9 -- "-$(cat "$VERIF_ORCH_PGID")" 2>/dev/null
+                fi
             fi
         ) 9>>"$VERIF_KILL_CNT.lock"
     fi
